@@ -30,15 +30,22 @@ def reseek_agrees_with_position(ctx, DIRECT):
         return
     names = [v['name'] for v in F.adts[LK]['variants']]
 
-    def seekto_of(b, bi):
-        """the SeekTo variant(s) handed to the call in block bi (None: the call takes no SeekTo)"""
+    def seekto_of(b, bi, frm=None):
+        """the SeekTo variant(s) handed to the call in block bi (None: the call takes no SeekTo); with `frm`: only what is built
+        on the way from block frm to the call (`let target = match state { .. }; seek(target)`: one seek for all arms)"""
         t = b.term(bi)
         for a in t['a']:
             pl = op_place(a)
             if pl is None or 'SeekTo' not in str(b.locals[pl[0]]):
                 continue
             sl = backward_slice(b, [pl])
-            vs = set(x['r']['ak'].split('::')[-1] for l in sl.locals for (_, _, kind, x) in b.defs().get(l, []) if kind == 'assign' and x['r']['k'] == 'agg' and str(x['r']['ak']).startswith('Adt:' + ST + '::'))
+            defs_ = [(db_, x) for l in sl.locals for (db_, _, kind, x) in b.defs().get(l, []) if kind == 'assign' and x['r']['k'] == 'agg' and str(x['r']['ak']).startswith('Adt:' + ST + '::')]
+            if frm is not None:
+                region = b.reachable_from([frm]) | {frm}
+                on_way = [(db_, x) for db_, x in defs_ if db_ in region and (bi in b.reachable_from([db_]) or db_ == bi)]
+                if on_way:
+                    defs_ = on_way
+            vs = set(x['r']['ak'].split('::')[-1] for _, x in defs_)
             if sl.params and not vs:
                 vs = {'<parameter>'}
             return vs
@@ -90,7 +97,7 @@ def reseek_agrees_with_position(ctx, DIRECT):
                     stack.extend(b.succ(x))
                 got = set()
                 for x in first:
-                    got |= (seekto_of(b, x) or set())
+                    got |= (seekto_of(b, x, frm=tg) or set())
                 want = {'Exclude'} if names[v] == 'At' else est.get(names[v])
                 if not want or not got:
                     continue
